@@ -24,7 +24,7 @@ RULE = ("Generated: 1..2 skeleton-sharing base circuits (<= 3 variables; categor
         "outputs of its operands (integrate: brute-force sum / quadrature over Z of the operand's compiled outputs; "
         "multiply: product in Kronecker order; differentiate: autograd of the operand; conjugate; evidence: operand on "
         "overwritten columns; concatenate: stack) and (ii) agreement with the numpy reference at the current values "
-        "(read back through the state map); (iii) storage: the learnable tensors reachable from a derived circuit are a "
+        "(read back through the state map); (iii) compiling a derived circuit leaves every operand tensor bit-identical; (iv) storage: the learnable tensors reachable from a derived circuit are a "
         "subset (by storage) of those of the base circuits, i.e. no new learnable parameters. Non-trivial = a history "
         "with >= 1 update after the compilation of a derived circuit and a relation checked after it; distinct = hash "
         "of case.")
@@ -207,8 +207,15 @@ def run_case(case):
             if next_derived < len(derived_order):
                 i = derived_order[next_derived]
                 next_derived += 1
+                before = tie.read_values(comp, tensors)
                 with sut("compile-derived"):
                     ccs[i] = comp.compile(scs[i])
+                after = tie.read_values(comp, tensors)
+                for t in tensors:  # compiling a derived circuit must not touch the operands' parameters
+                    if not np.array_equal(before[t], after[t], equal_nan=True):
+                        raise Violation("compile-derived-leaves-operands-untouched",
+                                        f"{pipe[i]['op']}:{feat}:operand-parameters-changed-by-compilation",
+                                        f"a tensor of shape {t.shape} of an operand changed while compiling the derived circuit")
                 # operands compiled implicitly are part of the pool as well
                 for j in range(len(pipe)):
                     if j not in ccs and comp.is_compiled(scs[j]):
